@@ -661,12 +661,12 @@ func fCasesFor(r *Rng, base, ents []fEnt, layer bool, idx int, quick bool) []fCa
 			kinds = append(kinds, "rd-eof")
 		}
 		if ep.Auto {
-			kinds = append(kinds, "gz-custom", "gz-eof")
+			kinds = append(kinds, "gz-custom", "gz-eof", "gzm-custom")
 		}
 		for _, k := range kinds {
 			cc := c
 			cc.Fault = k
-			if strings.HasPrefix(k, "gz-") {
+			if strings.HasPrefix(k, "gz-") || strings.HasPrefix(k, "gzm-") {
 				cc.Pigz = r.chance(1, 2)
 			}
 			out = append(out, cc)
